@@ -435,3 +435,51 @@ pub fn replay(lines: &[String], out: &mut String) -> bool {
     run_case(head[1], &c, out);
     true
 }
+
+/// Two securities rejected for the same reason on the same day — their messages are byte for byte
+/// the same ("Invalid RoC tx on <date>: Registered affiliates do not have an ACB to adjust") — and,
+/// optionally, a security holding a vanishing number of shares with an ordinary cost base (its
+/// cost per share is beyond what a 96-bit decimal can hold).  Each must still be reported on its own.
+pub fn add_twin_failures(c: &mut AppCase, r: &mut Rng) {
+    use acb::portfolio::{RocTxSpecifics, SflaTxSpecifics};
+    let reg = Affiliate::from_strep("Zed (R)");
+    if !c.names.iter().any(|n| n == reg.name()) {
+        c.names.push(reg.name().to_string());
+    }
+    let day = ledger::BASE_JD + 700 + r.below(200) as i32;
+    for sec in ["S7", "S8"] {
+        let mut b = ledger::mk_tx(day, &reg, ledger::buy(Decimal::new(10, 0), Decimal::new(10, 0)));
+        b.security = sec.to_string();
+        let mut x = ledger::mk_tx(
+            day + 5,
+            &reg,
+            TxActionSpecifics::Roc(RocTxSpecifics {
+                amount_per_held_share: GreaterEqualZeroDecimal::try_from(Decimal::new(25, 2)).unwrap(),
+                tx_currency_and_rate: ledger::cer("CAD", Decimal::ONE),
+            }),
+        );
+        x.security = sec.to_string();
+        c.rows.push(b);
+        c.rows.push(x);
+    }
+    if r.chance(50) {
+        let dflt = Affiliate::default();
+        let mut b = ledger::mk_tx(day, &dflt, ledger::buy(Decimal::ONE, Decimal::new(100, 0)));
+        b.security = "S9".to_string();
+        let almost_all: Decimal = "0.9999999999999999999999999999".parse().unwrap();
+        let mut s1 = ledger::mk_tx(day + 1, &dflt, ledger::sell(almost_all, Decimal::new(100, 0), None));
+        s1.security = "S9".to_string();
+        let mut a = ledger::mk_tx(
+            day + 2,
+            &dflt,
+            TxActionSpecifics::Sfla(SflaTxSpecifics {
+                shares_affected: acb::util::decimal::PosDecimal::try_from(Decimal::ONE).unwrap(),
+                amount_per_share: acb::util::decimal::PosDecimal::try_from(Decimal::new(100, 0)).unwrap(),
+            }),
+        );
+        a.security = "S9".to_string();
+        c.rows.push(b);
+        c.rows.push(s1);
+        c.rows.push(a);
+    }
+}
